@@ -163,6 +163,8 @@ pub struct LinearOpts {
     pub max_lane_rank: usize,
     pub allow_zero_lanes: bool,
     pub allow_cluster: bool,
+    /// sometimes use magnitudes near the ends of the exponent range
+    pub extreme_magnitudes: bool,
 }
 
 impl Default for LinearOpts {
@@ -173,8 +175,42 @@ impl Default for LinearOpts {
             max_lane_rank: 3,
             allow_zero_lanes: false,
             allow_cluster: true,
+            extreme_magnitudes: false,
         }
     }
+}
+
+/// scale so that the largest magnitude lies in [1/2, 1] (exact: a power of two)
+pub fn normalise_pow2<T: Flt>(v: &[T]) -> Vec<T> {
+    let m = v.iter().fold(0.0f64, |m, a| m.max(a.f().abs()));
+    if m == 0.0 || !m.is_finite() {
+        return v.to_vec();
+    }
+    let mut e = 0i32;
+    let mut p = 1.0f64;
+    while p < m {
+        p *= 2.0;
+        e += 1;
+    }
+    while p / 2.0 >= m {
+        p /= 2.0;
+        e -= 1;
+    }
+    v.iter().map(|a| *a * T::pow2(-e)).collect()
+}
+
+/// (axis exponent, data exponent) with |data - axis| bounded so that slopes stay representable
+pub fn extreme_exponents<T: Flt>(rng: &mut Rng) -> (i32, i32) {
+    let (amax, dlo, dhi, gap) = if T::MANT == 23 { (100, -110, 125, 100) } else { (880, -960, 1021, 880) };
+    let ex = rng.irange(-amax as i64, amax as i64) as i32;
+    let lo = (ex - gap).max(dlo);
+    let hi = (ex + gap).min(dhi);
+    let ey = match rng.below(3) {
+        0 => hi,
+        1 => lo,
+        _ => rng.irange(lo as i64, hi as i64) as i32,
+    };
+    (ex, ey)
 }
 
 pub fn gen_linear_case<T: Flt>(rng: &mut Rng, o: &LinearOpts) -> (Spec1<T>, Labels) {
@@ -194,18 +230,44 @@ pub fn gen_linear_case<T: Flt>(rng: &mut Rng, o: &LinearOpts) -> (Spec1<T>, Labe
     let mut shape = vec![n];
     shape.extend(&lanes);
     let dclass = *rng.pick(&DataClass::ALL);
-    let data = gen_data::<T>(rng, &shape, dclass, (-100, 100));
+    let mut data = gen_data::<T>(rng, &shape, dclass, (-100, 100));
+    let mut x = x;
+    let mut extreme = false;
+    if o.extreme_magnitudes && !use_default_axis && rng.chance(0.15) {
+        // magnitudes near the ends of the exponent range, chosen so that everything the
+        // mathematical result needs (differences, the slope) stays representable
+        let smooth = *rng.pick(&AxisClass::SMOOTH);
+        let base: Vec<T> = gen_axis(rng, n, smooth, &AxisOpts { max_ratio: 65536.0, scale_exp: (0, 0) });
+        let base_data = gen_data::<T>(rng, &shape, dclass, (0, 0));
+        let (ex, ey) = extreme_exponents::<T>(rng);
+        x = normalise_pow2(&base).iter().map(|v| *v * T::pow2(ex)).collect();
+        let flat: Vec<T> = base_data.iter().copied().collect();
+        let nd = normalise_pow2(&flat);
+        data = ArrayD::from_shape_vec(IxDyn(&shape), nd.iter().map(|v| *v * T::pow2(ey)).collect()).unwrap();
+        fix_increasing(&mut x);
+        extreme = x.iter().all(|v| v.is_finite());
+        if !extreme {
+            x = base;
+            data = base_data;
+        }
+    }
     let labels = Labels {
         axis: if use_default_axis {
             "default-index".into()
+        } else if extreme {
+            "extreme-magnitude".into()
         } else {
             class.name().into()
         },
-        data: dclass.name().into(),
+        data: if extreme { "extreme-magnitude".into() } else { dclass.name().into() },
         n_class: n_class(n, 2),
         boundary: "-".into(),
         lanes: format!("{:?}", lanes),
         uniform: is_uniform(&x),
+    };
+    let labels = Labels {
+        uniform: is_uniform(&x),
+        ..labels
     };
     let mut spec = Spec1::new(
         data,
@@ -229,6 +291,7 @@ pub struct GridOpts {
     pub max_lane_rank: usize,
     pub allow_zero_lanes: bool,
     pub allow_cluster: bool,
+    pub extreme_magnitudes: bool,
 }
 
 impl Default for GridOpts {
@@ -240,6 +303,7 @@ impl Default for GridOpts {
             max_lane_rank: 4,
             allow_zero_lanes: false,
             allow_cluster: true,
+            extreme_magnitudes: false,
         }
     }
 }
@@ -278,7 +342,31 @@ pub fn gen_grid_case<T: Flt>(rng: &mut Rng, o: &GridOpts) -> (Spec2<T>, Labels2)
     let mut shape = vec![nx, ny];
     shape.extend(&lanes);
     let dclass = *rng.pick(&DataClass::ALL);
-    let data = gen_data::<T>(rng, &shape, dclass, (-100, 100));
+    let mut data = gen_data::<T>(rng, &shape, dclass, (-100, 100));
+    let (mut x, mut y) = (x, y);
+    if o.extreme_magnitudes && !defx && !defy && rng.chance(0.15) {
+        let opts = AxisOpts { max_ratio: 65536.0, scale_exp: (0, 0) };
+        let (c1, c2) = (*rng.pick(&AxisClass::SMOOTH), *rng.pick(&AxisClass::SMOOTH));
+        let bx: Vec<T> = gen_axis(rng, nx, c1, &opts);
+        let by: Vec<T> = gen_axis(rng, ny, c2, &opts);
+        let bd = gen_data::<T>(rng, &shape, dclass, (0, 0));
+        let (ex, ez) = extreme_exponents::<T>(rng);
+        // the y axis exponent must also stay within reach of the data exponent
+        let gap = if T::MANT == 23 { 100 } else { 880 };
+        let amax = if T::MANT == 23 { 100 } else { 880 };
+        let ey = rng.irange((ez - gap).max(-amax) as i64, (ez + gap).min(amax) as i64) as i32;
+        let mut nx_: Vec<T> = normalise_pow2(&bx).iter().map(|v| *v * T::pow2(ex)).collect();
+        let mut ny_: Vec<T> = normalise_pow2(&by).iter().map(|v| *v * T::pow2(ey)).collect();
+        fix_increasing(&mut nx_);
+        fix_increasing(&mut ny_);
+        let flat: Vec<T> = bd.iter().copied().collect();
+        let nd = normalise_pow2(&flat);
+        if nx_.iter().chain(ny_.iter()).all(|v| v.is_finite()) {
+            x = nx_;
+            y = ny_;
+            data = ArrayD::from_shape_vec(IxDyn(&shape), nd.iter().map(|v| *v * T::pow2(ez)).collect()).unwrap();
+        }
+    }
     let labels = Labels2 {
         axis_x: if defx { "default-index".into() } else { cx.name().into() },
         axis_y: if defy { "default-index".into() } else { cy.name().into() },
